@@ -89,8 +89,19 @@ async fn hammer(c: &Collection, rng: &mut Rng, some_id: u64, try_reenable: bool)
     out.push(("flush", e(c.flush(anda_db::unix_ms()).await.map(|_| ()))));
     out.push(("save_extension", e(c.save_extension("kx".into(), Fv::U64(5)).await)));
     out.push(("remove_extension", e(c.remove_extension("k0").await.map(|_| ()))));
+    // the four synchronous setters (plain, typed, functional, typed functional), on new keys and
+    // on an existing one; they return nothing, so what they did is judged by what a later
+    // checkpoint persists (silence_case) and by the flush right here being refused
     c.set_extension("ky".into(), Fv::U64(6));
-    out.push(("set_extension+flush", e(c.flush(anda_db::unix_ms()).await.map(|_| ()))));
+    c.set_extension_from("kz".into(), 7u64);
+    let _ = c.set_extension_with("kw".into(), |_| Some(Fv::U64(8)));
+    let _ = c.set_extension_from_with::<_, u64>("kv".into(), |_| Some(9));
+    let _ = c.set_extension_with("k0".into(), |old| match old {
+        Some(Fv::U64(x)) => Some(Fv::U64(x + 1000)),
+        _ => Some(Fv::U64(1000)),
+    });
+    let _ = c.set_extension_from_with::<_, u64>("k1".into(), |old| Some(old.unwrap_or(0) + 1000));
+    out.push(("set_extension*+flush", e(c.flush(anda_db::unix_ms()).await.map(|_| ()))));
     out.push(("compact_btree_index", e(c.compact_btree_index(&["age"]).await)));
     out.push(("compact_bm25_index", e(c.compact_bm25_index(&["body"]).await)));
     out.push(("reconcile_storage", e(c.reconcile_storage().await.map(|_| ()))));
@@ -240,8 +251,38 @@ fn silence_case(case: u64, rng: &mut Rng, st: &mut Stats) {
             return;
         }
         if !terminal {
-            // a read-only handle becomes writable again through the legitimate switch
+            // a read-only handle becomes writable again through the legitimate switch; the
+            // checkpoint that follows must not persist anything a call made WHILE the handle was
+            // read-only (the synchronous extension setters have no other observable effect)
             st.count("readonly_handles_checked");
+            let ext_before: std::collections::BTreeMap<String, u64> = d.model.ext.clone();
+            match tr {
+                Transition::CollReadOnly => c.set_read_only(false),
+                _ => {
+                    d.db.set_read_only(false);
+                    c.set_read_only(false);
+                }
+            }
+            if let Ok(nc) = open_coll(&d.db, IndexSet::ALL).await {
+                let _ = nc.flush(anda_db::unix_ms()).await;
+                let snap = store.snapshot().await;
+                let reopened = async {
+                    let db = v_db::connect(snap as Arc<dyn ObjectStore>, &d.cfg).await.map_err(|e| format!("{e:?}"))?;
+                    let col = open_coll(&db, IndexSet::ALL).await.map_err(|e| format!("{e:?}"))?;
+                    Ok::<_, String>(["k0", "k1", "k2", "kx", "ky", "kz", "kw", "kv"].iter().filter_map(|k| col.get_extension_as::<u64>(k).map(|v| (k.to_string(), v))).collect::<std::collections::BTreeMap<String, u64>>())
+                }
+                .await;
+                st.count("oracle_nothing_set_while_read_only_is_persisted_later");
+                match reopened {
+                    Ok(ext) if ext != ext_before => {
+                        st.violation(format!("C06/silence/{tr:?}/extension_set_while_read_only_persisted_by_a_later_checkpoint"),
+                            ctx(json!({"extensions_before_read_only": format!("{ext_before:?}"), "extensions_after_reopen": format!("{ext:?}")})));
+                        return;
+                    }
+                    Ok(_) => {}
+                    Err(e) => st.count(&format!("readonly_followup_reopen_failed(measured):{}", &e[..e.len().min(40)])),
+                }
+            }
         }
         st.distinct(vcore::fnv_str(&format!("{tr:?}{}", d.history.join(";"))));
         st.sample(|| json!({"monitor": "silence", "transition": format!("{tr:?}"), "calls": results.iter().map(|(a, _)| *a).collect::<Vec<_>>()}));
